@@ -13,6 +13,14 @@ CLAIMED = {
             "buffer unchanged. The model is tied to /repo on every run by evaluating it in Coq's VM on the same inputs as the implementation.",
             "Trusted: Coq kernel+VM, the hand model's fidelity as sampled by the correspondence (exhaustive small buffers, every p mod 8 x n mod 8), CPython int/bytes primitives.",
             "DESIGN.md section 4 C03, 8.1"),
+    "C02": ("Coq proof by induction over the packet list (loop invariant: unread buffer ++ pending reads = encoding of the remaining packets; any chunking, prefix k, trim threshold T, known/unknown total) + kernel-evaluated correspondence with ccsds_generator on bytes/file/socket sources + real >20 MB stream judged against the spec",
+            "Theorems C02_bytes_source / C02_file_socket_source / C02_loop_exact / C02_trim_and_chunking_irrelevant: for every list of CCSDS packets each preceded by k foreign bytes and every cutting of the stream into non-empty read results, the framer model yields exactly the packets, for all three source kinds, all T. Model tied to packets.ccsds_generator each run.",
+            "Trusted: Coq kernel+VM; reader contract (read/recv return the next bytes, b'' at end); correspondence sampling (small streams exhaustively chunked; the trim branch is reached only by the real 21 MB run judged against the spec, covered on the model side by the for-all-T theorem).",
+            "DESIGN.md section 4 C02, 8.3"),
+    "C10": ("Coq proof by induction on fuel (termination measure = unread bytes; items complete, consecutive, remainder short) for arbitrary bytes and read sequences + kernel-evaluated correspondence on every cut offset of valid streams and random byte strings",
+            "Theorems C10_terminates_complete_consecutive / C10_remainder_short / C10_item_length_field hold for every byte string, every sequence of read results and every source kind: the loop ends without running out of fuel |input|+1, each item has the length its header declares, items are consecutive slices, and the remainder is shorter than one complete packet. The property determines the output uniquely, so model = implementation on a case is the property on that case.",
+            "Trusted: Coq kernel+VM; reader contract; a socket that neither sends nor closes blocks by design. Genuine defect F1/F2 found by this check and repaired by a fix: commit (known_findings.json).",
+            "DESIGN.md section 4 C10, 8.3"),
 }
 PENDING_REASON = "check not built yet in this round; design in DESIGN.md section 4 (no technique switch planned)"
 
